@@ -1,6 +1,7 @@
 (** C16 - DeepSearch reports exactly the matching locations.  Final statements only.
 
-    Reading.  [deep_search oracles c item obj] models DeepSearch(obj, item, **c); it returns
+    Reading.  [deep_search oracles c item obj] models DeepSearch(obj, item, **c) for ANY item
+    of the value universe (atom or container); it returns
     [RRaise] (TypeError) or [ROk evs], evs being the reports in the order the code makes them:
     [EvValue q v] = matched_values entry for the key sequence q, [EvPath q v] = matched_paths
     entry, [EvAttr q n] = matched_paths entry for the bound method n of the str at q (finding
@@ -18,24 +19,27 @@ From DD Require Path.PathModel.
 From DD Require Import Search.SearchModel Search.SearchSpec Search.SearchProofs Search.SearchExtract.
 
 (* every reported value path extracts from the object a value that matches the item under
-   the chosen mode: all objects, items, modes, exclusions *)
+   the chosen mode ([item_match]: by the comparer of its type, or by equality with the item):
+   all objects, items (containers included), modes, exclusions *)
 Theorem C16_sound :
   forall (brepr : pystr -> pystr) (re_search excl_re : pystr -> bool) (re_text : pystr)
-         (sa ba : list pystr) (c : config) (item : atom) (obj : value) (cs : bool)
+         (sa ba : list pystr) (c : config) (item : value) (obj : value) (cs : bool)
          (it : eitem) (evs : list event),
     wf obj = true ->
     prepare brepr c item = PItem cs it ->
     deep_search brepr re_search excl_re re_text sa ba c item obj = ROk evs ->
     forall (q : path) (v : value),
-      In (EvValue q v) evs -> get_at obj q = Some v /\ leaf_match brepr re_search c cs it v = true.
+      In (EvValue q v) evs -> get_at obj q = Some v /\ item_match brepr re_search c cs it v = true.
 Proof. exact final_sound. Qed.
 Print Assumptions C16_sound.
 
 (* matched_values is EXACTLY the set of matching locations that are visible under exclusion
-   as implemented: all objects, items, modes, exclusions *)
+   as implemented ([vis false]: reached by the search; an item of a list / tuple / set that
+   equals the searched item is reported and not descended into; a container matches only as
+   such an item): all objects, items, modes, exclusions *)
 Theorem C16_values_exact :
   forall (brepr : pystr -> pystr) (re_search excl_re : pystr -> bool) (re_text : pystr)
-         (sa ba : list pystr) (c : config) (item : atom) (obj : value) (cs : bool)
+         (sa ba : list pystr) (c : config) (item : value) (obj : value) (cs : bool)
          (it : eitem) (evs : list event),
     wf obj = true ->
     prepare brepr c item = PItem cs it ->
@@ -57,15 +61,28 @@ Theorem C16_complete_refuted :
 Proof. exact complete_refuted. Qed.
 Print Assumptions C16_complete_refuted.
 
-(* ... and holds whenever the item's own type is not excluded *)
+(* ... and for container items (K16h: a list / tuple / dict / set equal to the item is found
+   only as an ITEM of a list / tuple / set, never as a dictionary value or the root) ... *)
+Theorem C16_complete_container_refuted :
+  exists (cs : bool) (it : eitem) (evs : list event) (q : path) (v : value),
+    wf k16h_obj = true /\
+    prepare id_repr k16f_cfg k16h_item = PItem cs it /\ item_excl k16f_cfg it = false /\
+    deep_search id_repr no_re no_re k16h_text [] [] k16f_cfg k16h_item k16h_obj = ROk evs /\
+    In (q, v) (matches_spec_doc id_repr no_re no_re k16f_cfg cs it k16h_obj) /\
+    ~ In (EvValue q v) evs.
+Proof. exact complete_container_refuted. Qed.
+Print Assumptions C16_complete_container_refuted.
+
+(* ... and holds whenever the item is an atom whose own type is not excluded *)
 Theorem C16_complete_partial :
   forall (brepr : pystr -> pystr) (re_search excl_re : pystr -> bool) (re_text : pystr)
-         (sa ba : list pystr) (c : config) (item : atom) (obj : value) (cs : bool)
+         (sa ba : list pystr) (c : config) (item : value) (obj : value) (cs : bool)
          (it : eitem) (evs : list event),
     wf obj = true ->
     prepare brepr c item = PItem cs it ->
     deep_search brepr re_search excl_re re_text sa ba c item obj = ROk evs ->
     item_excl c it = false ->
+    atom_item it = true ->
     forall (q : path) (v : value),
       In (q, v) (matches_spec_doc brepr re_search excl_re c cs it obj) -> In (EvValue q v) evs.
 Proof. exact final_complete_partial. Qed.
@@ -75,12 +92,13 @@ Print Assumptions C16_complete_partial.
    matched_values is exactly the documented specification *)
 Theorem C16_values_exact_doc_partial :
   forall (brepr : pystr -> pystr) (re_search excl_re : pystr -> bool) (re_text : pystr)
-         (sa ba : list pystr) (c : config) (item : atom) (obj : value) (cs : bool)
+         (sa ba : list pystr) (c : config) (item : value) (obj : value) (cs : bool)
          (it : eitem) (evs : list event),
     wf obj = true ->
     prepare brepr c item = PItem cs it ->
     deep_search brepr re_search excl_re re_text sa ba c item obj = ROk evs ->
     item_excl c it = false ->
+    atom_item it = true ->
     k16_guard c obj = true ->
     forall (q : path) (v : value),
       In (EvValue q v) evs <-> In (q, v) (matches_spec_doc brepr re_search excl_re c cs it obj).
@@ -91,7 +109,7 @@ Print Assumptions C16_values_exact_doc_partial.
    dictionaries whose path text contains the item: all inputs *)
 Theorem C16_paths_exact :
   forall (brepr : pystr -> pystr) (re_search excl_re : pystr -> bool) (re_text : pystr)
-         (sa ba : list pystr) (c : config) (item : atom) (obj : value) (cs : bool)
+         (sa ba : list pystr) (c : config) (item : value) (obj : value) (cs : bool)
          (it : eitem) (evs : list event),
     wf obj = true ->
     prepare brepr c item = PItem cs it ->
@@ -103,12 +121,13 @@ Print Assumptions C16_paths_exact.
 
 Theorem C16_paths_exact_doc_partial :
   forall (brepr : pystr -> pystr) (re_search excl_re : pystr -> bool) (re_text : pystr)
-         (sa ba : list pystr) (c : config) (item : atom) (obj : value) (cs : bool)
+         (sa ba : list pystr) (c : config) (item : value) (obj : value) (cs : bool)
          (it : eitem) (evs : list event),
     wf obj = true ->
     prepare brepr c item = PItem cs it ->
     deep_search brepr re_search excl_re re_text sa ba c item obj = ROk evs ->
     item_excl c it = false ->
+    atom_item it = true ->
     k16_guard c obj = true ->
     k16b_guard brepr excl_re c obj = true ->
     forall (q : path) (v : value),
@@ -120,20 +139,21 @@ Print Assumptions C16_paths_exact_doc_partial.
 Theorem C16_paths_only_locations_refuted :
   exists (evs : list event) (q : path) (n : pystr),
     wf k16f_obj = true /\
-    deep_search id_repr no_re no_re [] k16f_attrs [] k16f_cfg ANone k16f_obj = ROk evs /\
+    deep_search id_repr no_re no_re [] k16f_attrs [] k16f_cfg (VAtom ANone) k16f_obj = ROk evs /\
     In (EvAttr q n) evs.
 Proof. exact paths_only_locations_refuted. Qed.
 Print Assumptions C16_paths_only_locations_refuted.
 
-(* ... but only when the item is None *)
+(* ... but only when the item is None or a container *)
 Theorem C16_paths_only_locations_partial :
   forall (brepr : pystr -> pystr) (re_search excl_re : pystr -> bool) (re_text : pystr)
-         (sa ba : list pystr) (c : config) (item : atom) (obj : value) (cs : bool)
+         (sa ba : list pystr) (c : config) (item : value) (obj : value) (cs : bool)
          (it : eitem) (evs : list event),
     wf obj = true ->
     prepare brepr c item = PItem cs it ->
     deep_search brepr re_search excl_re re_text sa ba c item obj = ROk evs ->
-    item <> ANone -> forall (q : path) (n : pystr), ~ In (EvAttr q n) evs.
+    forall a : atom, item = VAtom a -> a <> ANone ->
+    forall (q : path) (n : pystr), ~ In (EvAttr q n) evs.
 Proof. exact final_only_locations_partial. Qed.
 Print Assumptions C16_paths_only_locations_partial.
 
@@ -155,7 +175,7 @@ Print Assumptions C16_exclusions_refuted.
    the location nor any ancestor has an excluded path or type) *)
 Theorem C16_exclusions_partial :
   forall (brepr : pystr -> pystr) (re_search excl_re : pystr -> bool) (re_text : pystr)
-         (sa ba : list pystr) (c : config) (item : atom) (obj : value) (cs : bool)
+         (sa ba : list pystr) (c : config) (item : value) (obj : value) (cs : bool)
          (it : eitem) (evs : list event),
     wf obj = true ->
     prepare brepr c item = PItem cs it ->
@@ -172,14 +192,14 @@ Theorem C16_guards_satisfiable :
   wf guard_obj = true /\ k16_guard guard_cfg guard_obj = true /\
   k16b_guard id_repr no_re guard_cfg guard_obj = true /\
   item_excl guard_cfg (EAtom guard_item) = false /\
-  deep_search id_repr no_re no_re [] [] [] guard_cfg guard_item guard_obj = ROk guard_evs.
+  deep_search id_repr no_re no_re [] [] [] guard_cfg guard_item_v guard_obj = ROk guard_evs.
 Proof. exact guards_satisfiable. Qed.
 Print Assumptions C16_guards_satisfiable.
 
 (* when exactly the constructor raises TypeError: all inputs *)
 Theorem C16_raise_exact :
   forall (brepr : pystr -> pystr) (re_search excl_re : pystr -> bool) (re_text : pystr)
-         (sa ba : list pystr) (c : config) (item : atom) (obj : value),
+         (sa ba : list pystr) (c : config) (item : value) (obj : value),
     wf obj = true ->
     deep_search brepr re_search excl_re re_text sa ba c item obj = RRaise <->
     prepare brepr c item = PRaise \/
@@ -199,8 +219,8 @@ Print Assumptions C16_no_raise_refuted.
    non-string item) *)
 Theorem C16_no_raise_partial :
   forall (brepr : pystr -> pystr) (re_search excl_re : pystr -> bool) (re_text : pystr)
-         (sa ba : list pystr) (c : config) (item : atom) (obj : value),
-    wf obj = true -> bytes_free obj = true -> atom_not_bytes item = true ->
+         (sa ba : list pystr) (c : config) (item : value) (obj : value),
+    wf obj = true -> bytes_free obj = true -> item_not_bytes item = true ->
     deep_search brepr re_search excl_re re_text sa ba c item obj = RRaise ->
     prepare brepr c item = PRaise.
 Proof. exact no_raise_partial. Qed.
@@ -224,20 +244,20 @@ Print Assumptions C16_result_dict.
    set is subscripted on the way ... *)
 Theorem C16_sound_extract_partial :
   forall (brepr : pystr -> pystr) (re_search excl_re : pystr -> bool) (re_text : pystr)
-         (sa ba : list pystr) (c : config) (item : atom) (obj : value) (cs : bool)
+         (sa ba : list pystr) (c : config) (item : value) (obj : value) (cs : bool)
          (it : eitem) (evs : list event),
     wf obj = true ->
     prepare brepr c item = PItem cs it ->
     deep_search brepr re_search excl_re re_text sa ba c item obj = ROk evs ->
     forall (q : path) (v : value),
       In (EvValue q v) evs -> tame_path q = true -> set_free_along obj q = true ->
-      PathModel.extract obj (render brepr q) = Some v /\ leaf_match brepr re_search c cs it v = true.
+      PathModel.extract obj (render brepr q) = Some v /\ item_match brepr re_search c cs it v = true.
 Proof. exact sound_extract_partial. Qed.
 Print Assumptions C16_sound_extract_partial.
 
 Theorem C16_paths_extract_partial :
   forall (brepr : pystr -> pystr) (re_search excl_re : pystr -> bool) (re_text : pystr)
-         (sa ba : list pystr) (c : config) (item : atom) (obj : value) (cs : bool)
+         (sa ba : list pystr) (c : config) (item : value) (obj : value) (cs : bool)
          (it : eitem) (evs : list event),
     wf obj = true ->
     prepare brepr c item = PItem cs it ->
